@@ -702,3 +702,35 @@ Definition exec_lists (now : Z) (d : db) (name : bytes) (parts : list frame) (or
   else if beq name (bs "HVALS") then Some (h_key1 e_hvals d parts)
   else if beq name (bs "HINCRBY") then Some (h_hincrby d parts)
   else None.
+
+(** ---- WATCH marks (C08): the keys on which the engine calls mark_modified ----
+    lpush/rpush, lset, hset, hincrby: on every success.  lpop/rpop: if an element came out.
+    ltrim, hdel: whenever the key holds a list / hash (even if nothing changed); nothing for a
+    missing key.  lrem: if removed > 0.  sadd: if added > 0 (always for a new set).
+    srem: if the set is empty afterwards, else if removed > 0.  spop: if the result is not empty.
+    No read marks; a refused command marks nothing. *)
+Definition marks_lists (d d' : db) (name : bytes) (parts : list frame) (reply : frame) : list bytes :=
+  let k1 := match nth_arg parts 1 with Some k => [k] | None => [] end in
+  let held := match nth_arg parts 1 with Some k => get_val d k | None => None end in
+  let gone := match nth_arg parts 1 with Some k => negb (amem k (d_data d')) | None => false end in
+  if beq name (bs "LPUSH") || beq name (bs "RPUSH") || beq name (bs "HINCRBY") then
+    (match reply with FInt _ => k1 | _ => [] end)
+  else if beq name (bs "LPOP") || beq name (bs "RPOP") then
+    (match reply with FBulk _ => k1 | _ => [] end)
+  else if beq name (bs "LSET") then (match reply with FSimple _ => k1 | _ => [] end)
+  else if beq name (bs "LTRIM") then
+    (match reply, held with FSimple _, Some (VList _) => k1 | _, _ => [] end)
+  else if beq name (bs "LREM") || beq name (bs "SADD") then
+    (match reply with FInt n => if 0 <? n then k1 else [] | _ => [] end)
+  else if beq name (bs "SREM") then
+    (match reply, held with
+     | FInt n, Some (VSet _) => if gone || (0 <? n) then k1 else []
+     | _, _ => []
+     end)
+  else if beq name (bs "SPOP") then
+    (match reply with FBulk _ => k1 | FArray (_ :: _) => k1 | _ => [] end)
+  else if beq name (bs "HSET") then (match reply with FInt _ => k1 | _ => [] end)
+  else if beq name (bs "HMSET") then (match reply with FSimple _ => k1 | _ => [] end)
+  else if beq name (bs "HDEL") then
+    (match reply, held with FInt _, Some (VHash _) => k1 | _, _ => [] end)
+  else [].
